@@ -233,6 +233,11 @@ func CheckBuilt(b *trav.Built, c Case) (fs []core.Finding, outcome string) {
 		fs = append(fs, core.F("walkadv/"+feat+"/missing-load-error", "%s: expected a failed load of %x, walk returned nil; visits %s", where, exp.Loads[len(exp.Loads)-1], render(got.Visits)))
 		return fs, "bad"
 	}
+	if exp.Err != "" && len(got.Visits) > len(exp.Visits) && sameSeq(exp.Visits, got.Visits[:len(exp.Visits)]) {
+		// the reference stops at its first failing load; a walk that goes on past that point did not attempt it
+		fs = append(fs, core.F("walkadv/"+feat+"/missing-load-error", "%s: expected a failed load of %x after %d visits, the walk went on: %s (err %q)", where, exp.Loads[len(exp.Loads)-1], len(exp.Visits), render(got.Visits), got.Err))
+		return fs, "bad"
+	}
 	if !sameSeq(exp.Visits, got.Visits) {
 		fs = append(fs, core.F("walkadv/"+feat+"/"+diffCause(exp.Visits, got.Visits), "%s: expected %s, observed %s", where, render(exp.Visits), render(got.Visits)))
 	}
